@@ -29,6 +29,8 @@ TLoad ==
             /\ Ev.nt < Ev.srcSize => Ev.dInterp >= DOP - 1           \* interpolated operator on low orders
             /\ Ev.dPairLocal >= DOP + 1                      \* blocks independent of other particles
             /\ Ev.basisOut = Ev.reqBasis /\ Ev.sizeOut = Ev.nt - 1
+            \* used afterwards as the source of a further interpolation, the installed array is left as it was
+            /\ Ev.srcUsed = (Ev.nt >= 5) /\ Ev.srcUntouched /\ Ev.dSrcAction >= DOP + 1
        /\ exp # "ok" => Ev.installed = "prev"                \* previous array (or none) still there
        /\ files' = f /\ nt' = Ev.nt /\ pc' = "done" /\ out' = exp
        /\ idx' = 1
